@@ -1,8 +1,8 @@
-\* graph (thorough): cache and codegen on one cache file, two option sets, held handles
+\* graph (thorough): cache and codegen on one cache file, held handles
 CONSTANTS K = 2
           Editable = {"M"}
           Addable = {}
-          OptNames = {"O1","O2"}
+          OptNames = {"O1"}
           Modes = {"cache","codegen"}
           Versions = {1}
           Holds = {TRUE,FALSE}
